@@ -310,7 +310,16 @@ func runPair(c *mon.Case, sp spec) {
 	setQ(c, a, sp.WQ, sp.RQ)
 	setQ(c, b, sp.WQ, sp.RQ)
 	wa, wb := hx.WatchPipes(a), hx.WatchPipes(b)
-	if _, _, err := hx.Connect(a, b, sp.Tran); err != nil {
+	// a third of the stream-transport conversations run through a relay that re-segments both byte streams
+	if chop := sp.Tran != "inproc" && c.Idx%3 == 1; chop {
+		stop, err := hx.ConnectChopped(a, b, sp.Tran, c.Rand.Int63())
+		if err != nil {
+			c.Inconclusive("setup: %v", err)
+			return
+		}
+		c.Cleanup(stop)
+		c.Count("connections_through_resegmenting_relay", 1)
+	} else if _, _, err := hx.Connect(a, b, sp.Tran); err != nil {
 		c.Inconclusive("setup: %v", err)
 		return
 	}
@@ -449,7 +458,18 @@ func runPushPull(c *mon.Case, sp spec) {
 		setQ(c, p, sp.WQ, sp.RQ)
 		w := hx.WatchPipes(p)
 		var err error
-		if i%2 == 0 {
+		if sp.Tran != "inproc" && (c.Idx+i)%3 == 1 {
+			var stop func()
+			if i%2 == 0 {
+				stop, err = hx.ConnectChopped(push, p, sp.Tran, c.Rand.Int63())
+			} else {
+				stop, err = hx.ConnectChopped(p, push, sp.Tran, c.Rand.Int63())
+			}
+			if err == nil {
+				c.Cleanup(stop)
+				c.Count("connections_through_resegmenting_relay", 1)
+			}
+		} else if i%2 == 0 {
 			_, _, err = hx.Connect(push, p, sp.Tran)
 		} else {
 			_, _, err = hx.Connect(p, push, sp.Tran)
